@@ -115,6 +115,10 @@ func genCase(t *rapid.T, env *stdrun.Env) Case {
 	c.Opts.Blend = uint8(rapid.IntRange(0, 1).Draw(t, "blend"))
 	c.Opts.PixFill = rapid.SampledFrom([]uint8{0, 0xFF, 0xFE}).Draw(t, "pixfill")
 	c.Opts.Pure = rapid.IntRange(0, 3).Draw(t, "pure") == 0
+	if k.Iface == stdh.IMG {
+		// a pixel buffer smaller than the image is legal: the decoder must clip (first value = the image's own size)
+		c.Opts.Clip = rapid.SampledFrom([]uint8{0, 0, 0, 1, 2, 3, 4, 5}).Draw(t, "clip")
+	}
 	c.Opts.Seed = uint64(rapid.Uint32().Draw(t, "seed"))
 	if rapid.IntRange(0, 7).Draw(t, "quirk") == 0 {
 		// "ignore checksum" style quirk of the base package: key 1, any value
@@ -167,6 +171,9 @@ func checkCase(env *stdrun.Env, c Case) (msg string, nontrivial bool, classes []
 	}
 	if c.Opts.Pure && resp.NPure > 0 {
 		classes = append(classes, "pure-probed")
+	}
+	if c.Opts.Clip != 0 && resp.HaveImage {
+		classes = append(classes, "pixel-buffer-smaller-than-image")
 	}
 	if c.Plan.WorkMode == 2 && resp.WorkMin > 0 {
 		classes = append(classes, "workbuf-too-short")
